@@ -63,6 +63,7 @@ type RT struct {
 
 	Steps       int
 	MaxSteps    int
+	ioSinceStep int
 	Preemptions int
 	hash        uint64
 	Panics      []PanicInfo
@@ -176,6 +177,15 @@ func (r *RT) IO(label string) {
 	r.mu.Lock()
 	r.IOCount++
 	r.SiteHits["io:"+label]++
+	// a task that keeps passing file-system points without ever reaching a scheduling point is spinning (the points
+	// themselves only yield when YieldIO is set): end the run as a livelock instead of looping until the worker's
+	// watchdog fires
+	r.ioSinceStep++
+	if r.ioSinceStep > 1000000 && !r.aborted {
+		r.mu.Unlock()
+		r.Freeze("spin")
+		return
+	}
 	n := r.IOCount
 	if r.LogIO {
 		r.IOLog = append(r.IOLog, label)
@@ -510,6 +520,9 @@ func (r *RT) Run() {
 		delete(r.parked, t.id)
 		r.mu.Unlock()
 		r.Steps++
+		r.mu.Lock()
+		r.ioSinceStep = 0
+		r.mu.Unlock()
 		h := fnv.New64a()
 		fmt.Fprintf(h, "%d|%s|%s", r.hash, t.id, t.label)
 		r.hash = h.Sum64()
